@@ -3,6 +3,7 @@ package c03
 import (
 	"bytes"
 	"fmt"
+	"math"
 	"math/big"
 	"strings"
 	"testing"
@@ -180,6 +181,15 @@ func TestTamperedBlocksRejected(t *testing.T) {
 				add("Time", "prev", func(b *types.Block) bool { ph(b).Time = prev.Time(); return true })
 				add("Time", "now+121s", func(b *types.Block) bool { ph(b).Time = w.Now().Unix() + 121; return true })
 				add("Time", "zero", func(b *types.Block) bool { ph(b).Time = 0; return true })
+				// hostile constants: far past / far future, where duration arithmetic saturates or wraps
+				add("Time", "prev-1", func(b *types.Block) bool { ph(b).Time = prev.Time() - 1; return true })
+				add("Time", "-1", func(b *types.Block) bool { ph(b).Time = -1; return true })
+				add("Time", "min-int64", func(b *types.Block) bool { ph(b).Time = math.MinInt64; return true })
+				add("Time", "min-int64+prev-1", func(b *types.Block) bool { ph(b).Time = math.MinInt64 + prev.Time() - 1; return prev.Time() > 1 })
+				add("Time", "min-int64+drawn", func(b *types.Block) bool { ph(b).Time = math.MinInt64 + int64(pos)*(prev.Time()/256+1); return true })
+				add("Time", "max-int64", func(b *types.Block) bool { ph(b).Time = math.MaxInt64; return true })
+				add("Time", "max-int64-drawn", func(b *types.Block) bool { ph(b).Time = math.MaxInt64 - int64(pos); return true })
+				add("Time", "now+1y", func(b *types.Block) bool { ph(b).Time = w.Now().Unix() + 365*24*3600; return true })
 				flagOps(func(b *types.Block) *types.BlockFlag { return &ph(b).Flags })
 				bytesField := func(name string, get func(b *types.Block) *[]byte, fromOther func(o *types.ProposedHeader) []byte) {
 					add(name, "bitflip", func(b *types.Block) bool { p := get(b); *p = flipBit(*p, pos); return true })
